@@ -14,6 +14,7 @@ import (
 // VerifC05Part is one part of a snapshot.
 type VerifC05Part struct {
 	ID        uint64
+	Count     uint64
 	Ref       int32
 	Mem       bool
 	Removable bool
@@ -26,6 +27,7 @@ type VerifC05Table struct {
 	Parts   []VerifC05Part
 	Epoch   uint64
 	Shard   int
+	Creator int
 	Ref     int32
 	HasSnap bool
 	Busy    bool // the table's lock was held: nothing was read
@@ -54,9 +56,9 @@ func VerifC05Tables(svc Service, group string) ([]VerifC05Table, error) {
 			continue
 		}
 		if snp := t.Table.snapshot; snp != nil {
-			v.HasSnap, v.Epoch, v.Ref = true, snp.epoch, atomic.LoadInt32(&snp.ref)
+			v.HasSnap, v.Epoch, v.Ref, v.Creator = true, snp.epoch, atomic.LoadInt32(&snp.ref), int(snp.creator)
 			for _, pw := range snp.parts {
-				v.Parts = append(v.Parts, VerifC05Part{ID: pw.ID(), Ref: atomic.LoadInt32(&pw.ref), Mem: pw.mp != nil, Removable: pw.removable.Load()})
+				v.Parts = append(v.Parts, VerifC05Part{ID: pw.ID(), Count: pw.p.partMetadata.TotalCount, Ref: atomic.LoadInt32(&pw.ref), Mem: pw.mp != nil, Removable: pw.removable.Load()})
 			}
 		}
 		t.Table.RUnlock()
@@ -64,3 +66,8 @@ func VerifC05Tables(svc Service, group string) ([]VerifC05Table, error) {
 	}
 	return out, nil
 }
+
+// VerifC05ResetMergeSemaphore re-creates the package-level merge semaphore (made at init, i.e. outside any
+// synctest bubble, sized by the CPU count) inside the calling bubble with a fixed size: contention on a
+// non-bubble channel is not a durable block and would freeze the fake clock.
+func VerifC05ResetMergeSemaphore(n int) { mergeMaxConcurrencyCh = make(chan struct{}, n) }
